@@ -3,3 +3,4 @@ package webpmeta
 // Bounds of the arbitrary-byte harnesses (overridden per tier by the check driver).
 var verifC07N = 30
 var verifC08N = 14
+var verifC09N = 40
